@@ -161,6 +161,8 @@ pub struct RecVerifier {
     /// (ephemeral public key, payload key, file key) recovered from a header whose
     /// randomness was drawn by the library
     pub recovered: Option<(Vec<u8>, Vec<u8>, Vec<u8>)>,
+    /// explicit plaintext (golden files); otherwise generated from pseed
+    pub plain: Option<Vec<u8>>,
 }
 
 impl RecVerifier {
@@ -184,6 +186,7 @@ impl RecVerifier {
             dead: false,
             total: 0,
             recovered: None,
+            plain: None,
         }
     }
     pub fn feed(&mut self, mut data: &[u8]) {
@@ -217,7 +220,10 @@ impl RecVerifier {
             if self.buf.len() < need {
                 return;
             }
-            let pt = pbytes(self.pseed, self.poff, self.poff + len);
+            let pt = match &self.plain {
+                Some(p) => p[self.poff as usize..(self.poff + len) as usize].to_vec(),
+                None => pbytes(self.pseed, self.poff, self.poff + len),
+            };
             let t = unsafe { &*self.t };
             let expect = t.chunk_record(&self.key, &self.prefix, self.index, last, &pt);
             let ok = expect.len() == need && expect[..] == self.buf[..need];
